@@ -23,6 +23,25 @@ type pcfg struct {
 	Pow2     int      `json:"pow2,omitempty"`
 	NTT      bool     `json:"ntt,omitempty"`
 	Name     string   `json:"name"`
+	// EvkNoP: the evaluation keys are generated at LevelP = -1 although the parameters have an auxiliary modulus
+	EvkNoP bool `json:"evkNoP,omitempty"`
+}
+
+// evkParams returns the evaluation-key parameterisation of a parameter set (nil: the default one).
+func (p pcfg) evkParams() []rlwe.EvaluationKeyParameters {
+	if p.Pow2 == 0 && !p.EvkNoP {
+		return nil
+	}
+	ep := rlwe.EvaluationKeyParameters{}
+	if p.Pow2 > 0 {
+		pw := p.Pow2
+		ep.BaseTwoDecomposition = &pw
+	}
+	if p.EvkNoP {
+		m := -1
+		ep.LevelP = &m
+	}
+	return []rlwe.EvaluationKeyParameters{ep}
 }
 
 func (p pcfg) tag() string { return p.Name }
@@ -43,6 +62,7 @@ type bgvEnv struct {
 	rots  []int
 	rnd   *eng.Rand
 	evkPs []rlwe.EvaluationKeyParameters
+	fixed map[int]*rlwe.Ciphertext
 }
 
 func newBGVEnv(cfg pcfg, r *eng.Rand) (*bgvEnv, error) {
@@ -54,9 +74,7 @@ func newBGVEnv(cfg pcfg, r *eng.Rand) (*bgvEnv, error) {
 	e.kgen = rlwe.NewKeyGenerator(p)
 	e.sk, e.pk = e.kgen.GenKeyPairNew()
 	e.sk2 = e.kgen.GenSecretKeyNew()
-	if cfg.Pow2 > 0 {
-		e.evkPs = []rlwe.EvaluationKeyParameters{{BaseTwoDecomposition: &cfg.Pow2}}
-	}
+	e.evkPs = cfg.evkParams()
 	rlk := e.kgen.GenRelinearizationKeyNew(e.sk, e.evkPs...)
 	e.rots = []int{1, 2, 3, 4, 5, 8, 16, -1, -2}
 	galEls := p.GaloisElements(e.rots)
@@ -144,7 +162,34 @@ func (e *bgvEnv) scheme() *scheme[*bgv.Evaluator] {
 			ct.IsBatched = false
 			return ct
 		},
+		derived: []derivedEval[*bgv.Evaluator]{
+			{name: "shallowcopy", mk: func(p *poisoner) *bgv.Evaluator {
+				parent := bgv.NewEvaluator(e.p, e.evk, e.inv)
+				p.bgvEval(parent)
+				child := parent.ShallowCopy()
+				p.bgvEval(parent) // the parent keeps being used: nothing of it may reach the copy
+				return child
+			}},
+			{name: "withkey", mk: func(p *poisoner) *bgv.Evaluator {
+				// WithKey shares the (used) buffers of its receiver and rebuilds the key-dependent tables
+				parent := bgv.NewEvaluator(e.p, nil, e.inv)
+				p.bgvEval(parent)
+				return parent.WithKey(e.evkClone())
+			}},
+		},
 	}
+}
+
+// evkClone returns a distinct evaluation-key set object holding the same keys.
+func (e *bgvEnv) evkClone() *rlwe.MemEvaluationKeySet { return cloneKeySet(e.evk) }
+
+func cloneKeySet(evk *rlwe.MemEvaluationKeySet) *rlwe.MemEvaluationKeySet {
+	var gks []*rlwe.GaloisKey
+	for _, g := range evk.GetGaloisKeysList() {
+		k, _ := evk.GetGaloisKey(g)
+		gks = append(gks, k)
+	}
+	return rlwe.NewMemEvaluationKeySet(evk.RelinearizationKey, gks...)
 }
 
 func fillResidues(rq *ring.Ring, ct *rlwe.Ciphertext, r *eng.Rand) {
@@ -187,6 +232,42 @@ func (e *bgvEnv) operands(level int, scale uint64) []opnd {
 		{kind: "int", class: "scalar", mk: func() rlwe.Operand { return int(u) }},
 		{kind: "[]uint64", class: "vector", ptrish: true, mk: func() rlwe.Operand { return append([]uint64(nil), vu...) }},
 		{kind: "[]int64", class: "vector", ptrish: true, mk: func() rlwe.Operand { return append([]int64(nil), vi...) }},
+		// boundary values of every scalar kind, vectors shorter than the slot count, unreduced entries
+		{kind: "uint64", sub: "zero", class: "scalar", mk: func() rlwe.Operand { return uint64(0) }},
+		{kind: "uint64", sub: "one", class: "scalar", mk: func() rlwe.Operand { return uint64(1) }},
+		{kind: "uint64", sub: "t-1", class: "scalar", mk: func() rlwe.Operand { return t - 1 }},
+		{kind: "uint64", sub: "max", class: "scalar", mk: func() rlwe.Operand { return ^uint64(0) }},
+		{kind: "int64", sub: "minus-one", class: "scalar", mk: func() rlwe.Operand { return int64(-1) }},
+		{kind: "int64", sub: "min", class: "scalar", mk: func() rlwe.Operand { return int64(-1 << 63) }},
+		{kind: "int", sub: "zero", class: "scalar", mk: func() rlwe.Operand { return int(0) }},
+		{kind: "int", sub: "min", class: "scalar", mk: func() rlwe.Operand { return int(-1 << 63) }},
+		{kind: "*big.Int", sub: "zero", class: "scalar", ptrish: true, mk: func() rlwe.Operand { return new(big.Int) }},
+		{kind: "*big.Int", sub: "minus-one", class: "scalar", ptrish: true, mk: func() rlwe.Operand { return big.NewInt(-1) }},
+		{kind: "*big.Int", sub: "t", class: "scalar", ptrish: true, mk: func() rlwe.Operand { return new(big.Int).SetUint64(t) }},
+		{kind: "*big.Int", sub: "neg-huge", class: "scalar", ptrish: true, mk: func() rlwe.Operand {
+			return new(big.Int).Neg(new(big.Int).Lsh(big.NewInt(0x7654321), 300))
+		}},
+		{kind: "[]uint64", sub: "len3", class: "vector", ptrish: true, mk: func() rlwe.Operand { return append([]uint64(nil), vu[:3]...) }},
+		{kind: "[]uint64", sub: "len1", class: "vector", ptrish: true, mk: func() rlwe.Operand { return []uint64{vu[0]} }},
+		{kind: "[]uint64", sub: "unreduced", class: "vector", ptrish: true, mk: func() rlwe.Operand {
+			o := append([]uint64(nil), vu...)
+			for i := range o {
+				o[i] = ^uint64(0) - o[i]
+			}
+			return o
+		}},
+		{kind: "[]int64", sub: "min", class: "vector", ptrish: true, mk: func() rlwe.Operand {
+			o := append([]int64(nil), vi[:len(vi)/2]...)
+			for i := range o {
+				if i&1 == 0 {
+					o[i] = -1 << 63
+				} else {
+					o[i] = 1<<63 - 1
+				}
+			}
+			return o
+		}},
+		{kind: "[]int64", sub: "zeros", class: "vector", ptrish: true, mk: func() rlwe.Operand { return make([]int64, len(vi)) }},
 	}
 }
 
@@ -267,6 +348,8 @@ func runBGVBinary(c *eng.Ctx, cfg pcfg, api string) {
 		{name: "scale-ne/lvl-a>b", la: L, lb: L - 1, sa: 3, sb: 1, da: 1, accLvl: L - 1, accScale: 1, accDeg: 2, onlyCt: true},
 		{name: "deg-a2", la: L, lb: L, sa: 1, sb: 1, da: 2, accLvl: L, accScale: 1, accDeg: 2, onlyCt: true},
 		{name: "deg-a2/scale-ne", la: L, lb: L, sa: 1, sb: 3, da: 2, accLvl: L, accScale: 1, accDeg: 2, onlyCt: true},
+		// the single-modulus level
+		{name: "lvl0", la: 0, lb: 0, sa: 1, sb: 3, da: 1, accLvl: 0, accScale: 1, accDeg: 1, withSame: true},
 	}
 	for _, v := range vs {
 		a := e.ct(v.la, v.sa, v.da)
@@ -278,8 +361,17 @@ func runBGVBinary(c *eng.Ctx, cfg pcfg, api string) {
 			if v.onlyCt && b.class != "ct" && b.class != "pt" {
 				continue
 			}
-			ws := v.withSame && b.kind == "ct1"
-			runBinary(t, s, row, v.name, a, b, acc, ws)
+			vn := v.name
+			if b.sub != "" {
+				// boundary values: once per method, at the top level
+				if v.name != "eq" {
+					continue
+				}
+				vn += "/x:" + b.sub
+				c.Count("boundary_operand_rows", 1)
+			}
+			ws := v.withSame && b.kind == "ct1" && b.sub == ""
+			runBinary(t, s, row, vn, a, b, acc, ws)
 		}
 	}
 }
@@ -372,11 +464,14 @@ func runBGVUnary(c *eng.Ctx, cfg pcfg, name string) {
 		name  string
 		lvl   int
 		scale uint64
-	}{{"top", L, 1}, {"lvl-1", L - 1, 3}, {"lvl1", 1, 1}} {
+	}{{"top", L, 1}, {"lvl-1", L - 1, 3}, {"lvl1", 1, 1}, {"lvl0", 0, 5}} {
 		if e.inv && row.api == "bgv.Evaluator.Rescale" {
 			// documented: Rescale is a nop for a scale-invariant (BFV) evaluator
 			c.Count("skipped_bfv_rescale_nop", 1)
 			continue
+		}
+		if row.outLvl != nil && row.outLvl(v.lvl) < 0 {
+			continue // no level left to consume
 		}
 		a := e.ct(v.lvl, v.scale, u.deg)
 		sub := ""
